@@ -77,3 +77,25 @@ extern "C" void h_routes(void) {
    vp_assert((&lab == &cl.default_value()) == (w.view() == util::word_view(u8"default")), 25);
    vp_done();
 }
+// spelling -> constant routes driven through one reused token buffer: a symbolic word (1..3 bytes), then a standard linkage spelling
+// written into the same storage, then the first word again; each answer depends on the bytes presented, not on the storage
+extern "C" void h_token_routes(void) {
+   impl::Lexicon* a = new impl::Lexicon; auto& lx = *a; const ipr::Lexicon& cl = lx;
+   Word<3> w; w.make(1);
+   static char8_t token[4];
+   auto put = [&](util::word_view v) { for (unsigned k = 0; k < v.size() && k < 4; ++k) token[k] = v[k]; return util::word_view(token, v.size()); };
+   bool wC = w.view() == util::word_view(u8"C"), wCxx = w.view() == util::word_view(u8"C++");
+   const ipr::Linkage& k1 = lx.get_linkage(put(w.view()));
+   vp_assert((&k1 == &cl.c_linkage()) == wC && (&k1 == &cl.cxx_linkage()) == wCxx, 30);
+   bool second_is_c = vp_flag();
+   const ipr::Linkage& k2 = lx.get_linkage(put(second_is_c ? util::word_view(u8"C") : util::word_view(u8"C++")));
+   vp_assert(&k2 == (second_is_c ? &cl.c_linkage() : &cl.cxx_linkage()), 31);                 // the constant, whatever was asked just before through the same storage
+   const ipr::Linkage& k3 = lx.get_linkage(put(w.view()));
+   vp_assert(&k3 == &k1 && k3.language().what().characters() == w.view(), 32);
+   // the identifier route through the same storage
+   const ipr::Identifier& i1 = lx.get_identifier(put(w.view()));
+   const ipr::Identifier& i2 = lx.get_identifier(put(util::word_view(u8"int")));
+   vp_assert(&i2 == &cl.int_type().name() && &lx.get_as_type(i2) == &cl.int_type(), 33);
+   vp_assert(i1.string().characters() == w.view() && &lx.get_identifier(put(w.view())) == &i1, 34);
+   vp_done();
+}
